@@ -70,6 +70,9 @@ func isRunningMaxPhi(q *ssa.Phi, cand VMatch) (ssa.Value, bool) {
 }
 
 func runC19(p *Prog, r *Report) {
+	if want("C19.17") {
+		ruleRecoverNeverStrictReader(p, r, "C19.17")
+	}
 	if want("C19.16") {
 		ruleLegacyNameFallback(p, r, "C19.16")
 	}
@@ -492,6 +495,23 @@ func runC19(p *Prog, r *Report) {
 				}
 				fa := st.Addr.(*ssa.FieldAddr)
 				_, priv := callValue(testedValue(fa.X), "leveldb.dupOptions")
+				if !priv {
+					// the options variable is a cell (captured by the per-table closures): private if a
+					// store of dupOptions(...) into the cell dominates this access
+					if ld, isLd := stripConv(fa.X).(*ssa.UnOp); isLd && ld.Op == token.MUL {
+						if cell, isCell := ld.X.(*ssa.Alloc); isCell {
+							for _, ref := range *cell.Referrers() {
+								cs, isSt := ref.(*ssa.Store)
+								if !isSt || cs.Addr != ssa.Value(cell) {
+									continue
+								}
+								if _, isDup := callValue(cs.Val, "leveldb.dupOptions"); isDup && (cs.Block() == st.Block() || cs.Block().Dominates(st.Block())) {
+									priv = true
+								}
+							}
+						}
+					}
+				}
 				b, isB := st.Val.(*ssa.BinOp)
 				masks := false
 				if isB && b.Op == token.AND_NOT {
